@@ -397,6 +397,16 @@ class Engine:
                                                 body)))
 
     def fresh_dict(self, st, vs, name):
+        if vs.startswith("list:"):
+            es = vs[5:]
+            esort = sort_of_shape(es)
+            dom = st.fresh(name + "_dom", z3.ArraySort(U, BoolS))
+            d = VDict(dom, st.fresh(name + "_varr", z3.ArraySort(
+                U, z3.ArraySort(IntS, esort))), vs)
+            d.vlen = st.fresh(name + "_vlen", z3.ArraySort(U, IntS))
+            k = z3.Const("k!dl", U)
+            st.assume(z3.ForAll([k], d.vlen[k] >= 0))
+            return d
         sort = sort_of_shape(vs)
         dom = st.fresh(name + "_dom", z3.ArraySort(U, BoolS))
         val = st.fresh(name + "_val", z3.ArraySort(U, sort))
@@ -458,6 +468,16 @@ class Engine:
             if es.startswith("ref:"):
                 self._list_heap_facts(st, key)
             return lst
+        if shape.startswith("dict:list:"):
+            vs = shape[5:]
+            esort = sort_of_shape(vs[5:])
+            dom = self.heap_arr(st, key + "#dom", z3.ArraySort(U, BoolS))[r]
+            varr = self.heap_arr(st, key + "#varr", z3.ArraySort(
+                U, z3.ArraySort(IntS, esort)))[r]
+            vlen = self.heap_arr(st, key + "#vlen", z3.ArraySort(U, IntS))[r]
+            d = VDict(dom, varr, vs, lid=("heap", key, str(r)))
+            d.vlen = vlen
+            return d
         if shape.startswith("dict:"):
             vs = shape[5:]
             sort = sort_of_shape(vs)
@@ -532,6 +552,24 @@ class Engine:
             if sort == U:
                 a = self.heap_arr(st, key + "#ms", MS)
                 st.heap[key + "#ms"] = z3.Store(a, r, v.ms)
+            return
+        if shape.startswith("dict:list:"):
+            if not isinstance(v, VDict):
+                raise Unsupported(f"store non-dict into {key}")
+            vs = shape[5:]
+            esort = sort_of_shape(vs[5:])
+            a = self.heap_arr(st, key + "#dom", z3.ArraySort(U, BoolS))
+            st.heap[key + "#dom"] = z3.Store(a, r, v.dom)
+            a = self.heap_arr(st, key + "#varr", z3.ArraySort(
+                U, z3.ArraySort(IntS, esort)))
+            b = self.heap_arr(st, key + "#vlen", z3.ArraySort(U, IntS))
+            if v.val is None:      # the literal {}
+                st.heap[key + "#varr"] = z3.Store(a, r, st.fresh(
+                    "dvarr", z3.ArraySort(U, z3.ArraySort(IntS, esort))))
+                st.heap[key + "#vlen"] = z3.Store(b, r, z3.K(U, z3.IntVal(0)))
+            else:
+                st.heap[key + "#varr"] = z3.Store(a, r, v.val)
+                st.heap[key + "#vlen"] = z3.Store(b, r, v.vlen)
             return
         if shape.startswith("dict:"):
             if not isinstance(v, VDict):
@@ -1175,6 +1213,14 @@ class Engine:
             if obj.val is None:
                 raise RaiseEx("KeyError", line)
             self.require(st, obj.dom[k], "KeyError", line)
+            if obj.vshape.startswith("list:"):
+                es = obj.vshape[5:]
+                ms = None
+                lst = VList(obj.val[k], obj.vlen[k], es, ms,
+                            lid=("dictval", str(obj.lid), str(k)))
+                if sort_of_shape(es) == U:
+                    lst.ms = st.fresh("dl_ms", MS)
+                return lst
             return wrap(obj.vshape, obj.val[k])
         if isinstance(obj, VTuple):
             i = z3.simplify(_as_int(idx))
@@ -1361,6 +1407,15 @@ class Engine:
             if getattr(idx, "maybe_unhashable", False):
                 self.require(st, HASHABLE(k), "TypeError", line,
                              "unhashable dict key")
+            if isinstance(v, VList):
+                if cont.val is None or not cont.vshape.startswith("list:"):
+                    raise Unsupported("list stored into an untyped dict: give "
+                                      "it a shape via locals_")
+                new = VDict(z3.Store(cont.dom, k, z3.BoolVal(True)),
+                            z3.Store(cont.val, k, v.arr), cont.vshape,
+                            lid=cont.lid)
+                new.vlen = z3.Store(cont.vlen, k, v.n)
+                return new
             if cont.val is None:
                 vs = self.shape_of_value(v)
                 val = st.fresh("dval", z3.ArraySort(U, sort_of_shape(vs)))
